@@ -79,3 +79,43 @@ def replay(path):
             print("FAIL", f)
         return 1 if fails else 0
     return ref.replay_file("C01", path)
+
+
+def relational_part(V, prop, relkind, tr, sd):
+    """arbitrary TLC-generated nets (all component kinds, up to 3 junction-pipe valves, library water / lgas, heat losses):
+    a second description of the same system (relabelled + shuffled, or with orientation-free branches swapped) must give
+    the same results for corresponding elements (Trace_PF.RelClauses)"""
+    rnd = random.Random(sd + 5)
+    emit = dict(MaxJ="= 4", MaxE="= 4", MaxN="= 3", MaxPV="= 3", Kinds="<- KindsAll", NKinds="<- NKindsTherm", TogJ="= FALSE")
+    r, nets = c04.gen_nets(emit, simulate="num=%d" % (50 if tr == "quick" else 800), depth=20, seed=4000 + sd, timeout=1200)
+    nets = [n for n in nets if n["sup"] and len(n["net"]["E"]) >= 2]
+    cap = 700 if tr == "quick" else 20000
+    if len(nets) > cap:
+        nets = rnd.sample(nets, cap)
+    jobs = []
+    for i, n in enumerate(nets):
+        seq = (i % 2 == 0)
+        opts = dict(c04.PF_OPTS, mode="sequential" if seq else "hydraulics", max_iter_therm=60, tol_T=1e-9)
+        prm = row_params(n["net"])
+        if not seq:
+            prm["tn"] = 350.0       # hydraulics only: start temperatures equal to the feed temperature (see finding F30)
+        jobs.append({"id": "r%d" % i, "an": n["net"], "fluid": "water" if (seq or i % 4 == 1) else "lgas", "params": prm,
+                     "opts": opts, "check": [prop + "R"], "relkind": relkind, "rseed": sd * 1000 + i})
+    cases = [c for c in core.pmap(pf.run_case_related, jobs, chunksize=12) if "skip" not in c]
+    if relkind == "rev":
+        # the known orientation dependence in hydraulics-only mode when a feeder's temperature differs from tfluid_k (F30)
+        mini = {"J": [dict(lab=1, svc=True), dict(lab=2, svc=True)],
+                "E": [dict(tbl="valve", lab=1, a=2, b=1, et="ju", svc=True, ca=True, cj=0, typ="", sec=1)],
+                "N": [dict(tbl="ext_grid", lab=1, j=1, svc=True, typ="pt"), dict(tbl="sink", lab=1, j=2, svc=True, typ="")]}
+        mc = pf.run_case_related({"id": "startT", "an": mini, "fluid": "water", "params": {"tn": 300.0},
+                                  "opts": dict(c04.PF_OPTS, mode="hydraulics"), "check": ["C09S"], "relkind": "rev", "rseed": 1})
+        if "skip" not in mc and mc["rel"]["rev"]:
+            cases.append(mc)
+    res, fails = c04.validate(cases)
+    by_id = {c["id"]: c for c in cases}
+    for f in fails:
+        for cl in f["clauses"]:
+            V.report(cl[0], cl[1], by_id[f["id"]], text="detail=%s case=%s" % (cl[2:], f["id"]))
+    both = sum(1 for c in cases if c["outcome"] == "returned" and c.get("routcome") == "returned")
+    return {"relational_pairs_run": len(cases), "relational_pairs_both_returned": both, "relational_failures": len(fails),
+            "relational_pairs_with_pipe_valves": sum(1 for c in cases if any(e["et"] == "pi" for e in c["net"]["E"]))}
